@@ -3,7 +3,7 @@
 From Coq Require Import List Arith NArith Bool Lia Sorting.Sorted.
 Import ListNotations.
 Require Import MayV.Rt.TimerThread MayV.Rt.TimerThreadInv MayV.Rt.TimerThreadTac MayV.Rt.TimerThreadPresB MayV.Rt.TimerThreadPresH.
-Open Scope N_scope.
+Local Open Scope N_scope.
 
 Lemma thold_step s x s' L : stepF s x = Some s' -> thold s L ->
   thold s' L \/
